@@ -66,6 +66,42 @@ def refused_calls(ctx, screen_mod, n):
     ctx.oracle_stats['refused_calls'] = tried
 
 
+def save_moves_restore(ctx, screen_mod, n):
+    """the clause of C19_save_moves_restore / C19_cursor_moves_change_only_the_cursor asked of the real screen: after any history,
+    save ; cursor movements with any arguments ; restore puts the cursor back and changes nothing but the saved cursor"""
+    rng = ctx.rng
+    moves = ['cursor_home', 'cursor_back', 'cursor_forward', 'cursor_up', 'cursor_down', 'cursor_force_position']
+    done = 0
+    for it in range(n):
+        rows, cols = rng.choice(SIZES + [(24, 80)])
+        s = screen_mod.screen(rows, cols)
+        hist = [S.gen_op(rng, rows, cols, 'abcXYZ') for _ in range(rng.randint(0, 8))]
+        for name, args in hist:
+            getattr(s, name)(*args)
+        vals = S.arg_values(rows, cols)
+        before = S.snapshot(s)
+        seq = []
+        rng.choice([s.cursor_save_attrs, s.cursor_save])()
+        for _ in range(rng.randint(0, 6)):
+            m = rng.choice(moves)
+            args = (rng.choice(vals), rng.choice(vals)) if m in ('cursor_home', 'cursor_force_position') else (rng.choice(vals),)
+            seq.append((m, args))
+            getattr(s, m)(*args)
+            mid = S.snapshot(s)
+            if mid[0] != before[0] or mid[5:10] != before[5:10] or mid[3:5] != before[1:3]:     # field 10 is get() under the cursor: it moves
+                ctx.hit('C19/move-frame', 'screen %dx%d: after save and the movements %r something other than the cursor changed (grid / saved cursor / scroll region): %r, was %r'
+                        % (rows, cols, seq, mid[3:7], before[1:3] + before[5:7]), {'rows': rows, 'cols': cols, 'ops': hist, 'moves': seq})
+                return
+        rng.choice([s.cursor_restore_attrs, s.cursor_unsave])()
+        after = S.snapshot(s)
+        done += 1
+        if after[:3] != before[:3] or after[5:] != before[5:]:
+            ctx.hit('C19/save-restore', 'screen %dx%d: save at %r, movements %r, restore: the cursor is at %r (or the grid / scroll region changed)'
+                    % (rows, cols, before[1:3], seq, after[1:3]), {'rows': rows, 'cols': cols, 'ops': hist, 'moves': seq})
+            return
+    ctx.oracle_stats['save_moves_restore'] = done
+
+
 def run(ctx):
     common.preflight()
     import warnings
@@ -114,6 +150,7 @@ def run(ctx):
                                         clist(['(%s, %s, %s, %s)' % tuple(cZ(x) for x in p) for p in probes]))
             cases.append((inp, [[sn[:7] for sn in snaps[:-1]] + [snaps[-1]], pr], {'rows': rows, 'cols': cols, 'ops': ops, 'probes': probes}))
     refused_calls(ctx, screen_mod, 3000 if thorough else 400)
+    save_moves_restore(ctx, screen_mod, 6000 if thorough else 800)
     ctx.oracle_stats.update({'sequences_vs_reference_grid': 40000 if thorough else 5000, 'op_histogram': stats})
     if os.path.exists(os.path.join(common.COQ, 'Screen/Run.vo')):
         ctx.run_cases('screen-ops', ['Screen.Model', 'Screen.Run'], 'run_screen', 'Z * Z * list sop * list (Z * Z * Z * Z)', cases, shard=200)
